@@ -11,8 +11,8 @@ func VP_C18_uuid() {
 	// short names of every length, then lengths around Minecraft's 16-character
 	// limit and beyond (non-ASCII names exceed 16 bytes); md5 is an opaque
 	// function of the hashed byte sequence, so length costs nothing
-	n := []int{0, 1, 2, 3, 4, 15, 16, 17, 18, 24, 33, 49}[vp.Choice(12)]
-	vp.SizeBound(64)
+	n := []int{0, 1, 2, 3, 4, 15, 16, 17, 18, 24, 33, 49, 50, 51, 63, 64, 65, 100, 129, 257}[vp.Choice(20)]
+	vp.SizeBound(300)
 	name := string(vp.Bytes(n))
 	got := NameToUUID(name)
 	d := md5.Sum([]byte("OfflinePlayer:" + name))
